@@ -200,7 +200,7 @@ PROPS = {
                  'T8 contract-only syscall wrappers: open_inode, import, do_lookup, forget, create_file_excl, set_creds, drop_cap_fsetid, sync_fd, stat_fd (handles.py docstring A5); fewer than 2^64-1 handle allocations'],
     ),
     'C10': dict(
-        vx_units=['ovl_layer', 'ovl_real', 'ovl_merge', 'ovl_ops'], kx=[],
+        vx_units=['ovl_layer', 'ovl_real', 'ovl_merge', 'ovl_ops', 'ovl_inodes'], kx=[],
         design_ref='DESIGN.md A.4 / A.6',
         not_covered=[
             'equality of the whole visible tree with the overlayfs union over operation histories: decided are the union rules for ONE name over arbitrary layer listings and the "only the upper layer is ever modified" frame, not the live-view bookkeeping (inode / children tables, lookup_node, load_directory, do_readdir, do_lookup, readdir paging)',
